@@ -236,3 +236,12 @@ Definition prog_wf (maxargs : Z) (w : option Z) (ops : list sop) : Prop :=
 
 (* the path the specification assigns to a program *)
 Definition prog_path (ops : list sop) : list cmd := path_of (flat_map expand ops).
+
+(* the contour discipline a sink may rely on: (MoveTo segment* Close)* *)
+Fixpoint contours_ok (opened : bool) (c : list cmd) : bool :=
+  match c with
+  | [] => negb opened
+  | MoveTo _ _ :: r => negb opened && contours_ok true r
+  | Close :: r => opened && contours_ok false r
+  | _ :: r => opened && contours_ok opened r
+  end.
